@@ -1,4 +1,5 @@
 import VM.Thm
+import TM.Seq2
 /-! Concurrent awaits of one AsyncDAG in one event loop (C17 b): `k` executions, each working on its
     own private copy of the results (that is what `async_execute` does: `results = copy(results)`),
     interleaved step by step in any order.  Non-interference: the interleaved run projects onto an
@@ -45,4 +46,13 @@ theorem C17b_concurrent_awaits_isolated (es : Nat → Exec V) {tr σ} (h : PRun 
     (hwf : WF (es i).c) (hd : (σ i).st.pc = .done) : ∀ n, (σ i).ρ n = den (es i).c n :=
   C01_core (es i).c (es i).a hwf (prun_proj es h i) hd
 
-end VM
+/-- **C05 inside concurrent executions**: in ANY interleaving of several executions (of one DAG or of different ones), the
+    next node an execution starts obeys the sequential rule with respect to the nodes in flight OF THAT EXECUTION: none of
+    them is sequential, and if the starting node is sequential none is in flight at all.  Nodes of the other executions
+    are not constrained (and do overlap). -/
+theorem C05_inside_concurrent_executions (es : Nat → Exec V) {tr σ} (h : PRun es tr σ) (i : Nat) (hwf : WF (es i).c)
+    {l vs'} (hs : VStep (es i).c (es i).a (σ i) l vs') {n : Node} (hl : l.start = some n) :
+    (∀ m ∈ (σ i).st.flight, (es i).a.seq m = false) ∧ ((es i).a.seq n = true → (σ i).st.flight = []) := by
+  obtain ⟨hr, hsim⟩ := vrun_sim (es i).c (es i).a hwf (prun_proj es h i)
+  have hstep := (sim_step (es i).c (es i).a hwf hr hsim hs).1
+  exact TM.C05_sequential_exclusive (cfgD (es i).c (es i).a) hr hstep hl
